@@ -69,9 +69,15 @@ impl PDFObjContext {
             eol_after_stream_content: false, // not strict
         }
     }
+    // Defines the object under its identifier.  If the identifier is
+    // already defined, that definition is kept and returned: a
+    // duplicate must not replace the object that was defined first.
     pub fn register_obj(&mut self, p: &LocatedVal<IndirectT>) -> Option<Rc<LocatedVal<PDFObjT>>> {
-        self.defns
-            .insert((p.val().num(), p.val().gen()), Rc::clone(p.val().obj()))
+        let id = (p.val().num(), p.val().gen());
+        if let Some(old) = self.defns.get(&id) {
+            return Some(Rc::clone(old))
+        }
+        self.defns.insert(id, Rc::clone(p.val().obj()))
     }
     pub fn lookup_obj(&self, oid: ObjectId) -> Option<&Rc<LocatedVal<PDFObjT>>> {
         self.defns.get(&oid)
